@@ -97,6 +97,38 @@ impl Any {
     }
 }
 
+
+/// Debug renderings of the two arc-iterator conversions of a Vec of arcs.
+fn a1_dbg(arcs: &[(usize, usize)]) -> (Result<String, String>, Result<String, String>) {
+    (
+        guarded(|| format!("{:?}", AdjacencyMatrix::from(arcs.to_vec()))),
+        guarded(|| format!("{:?}", EdgeList::from(arcs.to_vec()))),
+    )
+}
+
+/// All five iterator conversions on a small fixed input, judged against the
+/// definition; called from inside the `next()` of an iterator that another
+/// conversion is consuming.
+fn reentrant_conversions() -> Verdict {
+    let arcs = vec![(2, 0), (0, 1), (2, 0), (1, 3)];
+    let mut am = UModel::contiguous(4);
+    for &(u, v) in &arcs {
+        am.a.insert((u, v), ());
+    }
+    reprs::same(&EdgeList::from(arcs.clone()), &am, "EdgeList::from(arcs) called from inside another conversion's iterator")?;
+    reprs::same(&AdjacencyMatrix::from(arcs.clone()), &am, "AdjacencyMatrix::from(arcs) called from inside another conversion's iterator")?;
+    let rows: Vec<BTreeSet<usize>> = vec![BTreeSet::from([1]), BTreeSet::from([3]), BTreeSet::from([0]), BTreeSet::new()];
+    reprs::same(&AdjacencyList::from(rows.clone()), &am, "AdjacencyList::from(rows) called from inside another conversion's iterator")?;
+    reprs::same(&AdjacencyMap::from(rows.clone()), &am, "AdjacencyMap::from(rows) called from inside another conversion's iterator")?;
+    let wrows: Vec<BTreeMap<usize, usize>> = rows.iter().map(|r| r.iter().map(|&v| (v, 7)).collect()).collect();
+    reprs::same(&AdjacencyListWeighted::<usize>::from(wrows), &am, "AdjacencyListWeighted::from(rows) called from inside another conversion's iterator")?;
+    // and conversions between representations
+    let l = AdjacencyList::from(rows);
+    reprs::same(&AdjacencyMatrix::from(l.clone()), &am, "AdjacencyList -> AdjacencyMatrix called from inside another conversion's iterator")?;
+    reprs::same(&EdgeList::from(AdjacencyMap::from(l)), &am, "AdjacencyList -> AdjacencyMap -> EdgeList called from inside another conversion's iterator")?;
+    Ok(())
+}
+
 pub struct C16;
 
 fn rows_valid(rows: &[Vec<usize>]) -> bool {
@@ -111,7 +143,7 @@ impl Prop for C16 {
     type Case = Case;
     const ID: &'static str = "C16";
     const NUM: u64 = 16;
-    const RULE: &'static str = "contiguous digraphs (order 1..24 quick / 1..70 thorough); every case converts the digraph from each of the four unweighted representations into each other one (12 ordered pairs, round trips compared with ==), into AdjacencyListWeighted<usize> and <isize> (8 conversions, all weights 1), and along a generated chain of 2..4 conversions; plus From<rows> (BTreeSet rows for AdjacencyList/AdjacencyMap, BTreeMap rows for AdjacencyListWeighted) and From<arcs> (AdjacencyMatrix, EdgeList) with generated valid inputs (duplicates, arbitrary order) and invalid ones (self-loop, head >= row count, empty). About one random case in 25 has a large order (17..140, weighted towards 63..66, 96, 127..130, 140; at most 700 arcs). A low-rate 'huge' leg adds digraphs of 200..3100 vertices with O(n) arcs (paths, circuits, stars, wheels, trees, one row of exactly 255/256/257 out-neighbours, arcs in the last rows, complete below 300). Rows and arcs are also passed through iterators with inexact size hints (filter, from_fn, chain+take_while) and must behave exactly like the Vec. Non-trivial = size >=2 and order >=9 (bit matrix spans two words), or an invalid row/arc input; distinct = distinct serialised case.";
+    const RULE: &'static str = "contiguous digraphs (order 1..24 quick / 1..70 thorough); every case converts the digraph from each of the four unweighted representations into each other one (12 ordered pairs, round trips compared with ==), into AdjacencyListWeighted<usize> and <isize> (8 conversions, all weights 1), and along a generated chain of 2..4 conversions; plus From<rows> (BTreeSet rows for AdjacencyList/AdjacencyMap, BTreeMap rows for AdjacencyListWeighted) and From<arcs> (AdjacencyMatrix, EdgeList) with generated valid inputs (duplicates, arbitrary order) and invalid ones (self-loop, head >= row count, empty). About one random case in 25 has a large order (17..140, weighted towards 63..66, 96, 127..130, 140; at most 700 arcs). A low-rate 'huge' leg adds digraphs of 200..3100 vertices with O(n) arcs (paths, circuits, stars, wheels, trees, one row of exactly 255/256/257 out-neighbours, arcs in the last rows, complete below 300). Rows and arcs are also passed through iterators with inexact size hints (filter, from_fn, chain+take_while, and a wrapper reporting each honest hint shape: exact, (0, None), (k, None) with 0 < k <= len, loose upper bounds) and through iterators whose next() itself runs all five iterator conversions on another input; all must behave exactly like the Vec. Non-trivial = size >=2 and order >=9 (bit matrix spans two words), or an invalid row/arc input; distinct = distinct serialised case.";
     const ASSUMPTIONS: &'static [&'static str] = &[
         "an empty arc iterator handed to EdgeList::from is only required to give a digraph with at least one vertex (the documentation does not promise a panic)",
     ];
@@ -316,6 +348,51 @@ impl Prop for C16 {
                     (Ok(a), Ok(b)) => ensure!(*a == b, "AdjacencyMap::from(rows through {how}) differs from the same rows as a Vec"),
                     (Err(_), Err(_)) => {}
                     (a, b) => return Err(format!("AdjacencyMap::from(rows through {how}): {} but from a Vec: {}", if b.is_ok() { "accepted" } else { "panicked" }, if a.is_ok() { "accepted" } else { "panicked" })),
+                }
+            }
+        }
+        // honest size hints of every shape, and iterators that convert other
+        // inputs from inside their own next()
+        {
+            let same = |what: &str, a: &Result<String, String>, b: Result<String, String>| -> Verdict {
+                match (a, b) {
+                    (Ok(x), Ok(y)) => {
+                        ensure!(*x == y, "{what} gives {y}, the same input as a Vec gives {x}");
+                        Ok(())
+                    }
+                    (Err(_), Err(_)) => Ok(()),
+                    (a, b) => Err(format!("{what}: {} but from a Vec: {}", if b.is_ok() { "accepted" } else { "panicked" }, if a.is_ok() { "accepted" } else { "panicked" })),
+                }
+            };
+            let d1 = r1.as_ref().map(|d| format!("{d:?}")).map_err(Clone::clone);
+            let d2 = r2.as_ref().map(|d| format!("{d:?}")).map_err(Clone::clone);
+            let d3 = r3.as_ref().map(|d| format!("{d:?}")).map_err(Clone::clone);
+            if c.rows.len() <= 40 {
+                for h in gen::honest_hints(c.rows.len()) {
+                    same(&format!("AdjacencyList::from(rows, size_hint {h:?})"), &d1, guarded(|| format!("{:?}", AdjacencyList::from(gen::hinted(set_rows.clone(), h)))))?;
+                    same(&format!("AdjacencyMap::from(rows, size_hint {h:?})"), &d2, guarded(|| format!("{:?}", AdjacencyMap::from(gen::hinted(set_rows.clone(), h)))))?;
+                    same(&format!("AdjacencyListWeighted::from(rows, size_hint {h:?})"), &d3, guarded(|| format!("{:?}", AdjacencyListWeighted::<usize>::from(gen::hinted(map_rows.clone(), h)))))?;
+                }
+                let trouble = std::cell::RefCell::new(None::<String>);
+                let reenter = || {
+                    if let Err(e) = reentrant_conversions() {
+                        trouble.borrow_mut().get_or_insert(e);
+                    }
+                };
+                same("AdjacencyList::from(rows from an iterator that converts other inputs in next())", &d1, guarded(|| format!("{:?}", AdjacencyList::from(set_rows.clone().into_iter().inspect(|_| reenter())))))?;
+                same("AdjacencyMap::from(rows from an iterator that converts other inputs in next())", &d2, guarded(|| format!("{:?}", AdjacencyMap::from(set_rows.clone().into_iter().inspect(|_| reenter())))))?;
+                same("AdjacencyListWeighted::from(rows from an iterator that converts other inputs in next())", &d3, guarded(|| format!("{:?}", AdjacencyListWeighted::<usize>::from(map_rows.clone().into_iter().inspect(|_| reenter())))))?;
+                let x1 = a1_dbg(&c.arcs);
+                if c.arcs.len() <= 120 {
+                    for h in gen::honest_hints(c.arcs.len()) {
+                        same(&format!("AdjacencyMatrix::from(arcs, size_hint {h:?})"), &x1.0, guarded(|| format!("{:?}", AdjacencyMatrix::from(gen::hinted(c.arcs.clone(), h)))))?;
+                        same(&format!("EdgeList::from(arcs, size_hint {h:?})"), &x1.1, guarded(|| format!("{:?}", EdgeList::from(gen::hinted(c.arcs.clone(), h)))))?;
+                    }
+                    same("AdjacencyMatrix::from(arcs from an iterator that converts other inputs in next())", &x1.0, guarded(|| format!("{:?}", AdjacencyMatrix::from(c.arcs.clone().into_iter().inspect(|_| reenter())))))?;
+                    same("EdgeList::from(arcs from an iterator that converts other inputs in next())", &x1.1, guarded(|| format!("{:?}", EdgeList::from(c.arcs.clone().into_iter().inspect(|_| reenter())))))?;
+                }
+                if let Some(e) = trouble.into_inner() {
+                    return Err(e);
                 }
             }
         }
